@@ -25,10 +25,32 @@ func (e *Enc) implicitPre(fn *ssa.Function) []implPre {
 	var out []implPre
 	if fn.Signature.Recv() != nil && len(fn.Params) > 0 {
 		if _, isPtr := under(fn.Params[0].Type()).(*types.Pointer); isPtr {
-			ct := e.cs.ByFunc[e.w.Names[fn]]
+			ct := e.cs.For(e.w.Names[fn])
 			if ct == nil || ct.Opts["nilrecv"] == "" {
 				out = append(out, implPre{kind: "recv", param: 0})
 			}
+		}
+	}
+	// every other parameter that is a pointer to a struct (and is not itself tested against nil by the function)
+	ct0 := e.cs.For(e.w.Names[fn])
+	if ct0 == nil || ct0.Opts["nilargs"] == "" {
+		for i, p := range fn.Params {
+			if i == 0 && fn.Signature.Recv() != nil {
+				continue
+			}
+			pt, isPtr := under(p.Type()).(*types.Pointer)
+			if !isPtr {
+				// interface parameters other than error (hash.Hash, io.Reader, Debugger ...) are non-nil too
+				if _, isIface := under(p.Type()).(*types.Interface); !isIface || p.Type().String() == "error" || p.Type().String() == "interface{}" || p.Type().String() == "any" {
+					continue
+				}
+			} else if _, isStruct := under(pt.Elem()).(*types.Struct); !isStruct {
+				continue
+			}
+			if comparedWithNil(p) {
+				continue
+			}
+			out = append(out, implPre{kind: "recv", param: i})
 		}
 	}
 	seen := map[[2]int]bool{}
@@ -81,4 +103,21 @@ func (e *Enc) implTerm(p implPre, args []Val, h *Heap) string {
 		return app("=", app("select", e.heapGet(h, "$lock", "Int"), app("emb", args[p.param].T, ilit(int64(p.field)))), "0")
 	}
 	return "true"
+}
+
+func comparedWithNil(p *ssa.Parameter) bool {
+	if p.Referrers() == nil {
+		return false
+	}
+	for _, r := range *p.Referrers() {
+		if b, ok := r.(*ssa.BinOp); ok {
+			if c, isC := b.Y.(*ssa.Const); isC && c.Value == nil {
+				return true
+			}
+			if c, isC := b.X.(*ssa.Const); isC && c.Value == nil {
+				return true
+			}
+		}
+	}
+	return false
 }
